@@ -187,7 +187,10 @@ fn gen_float(rng: &mut Rng, depth: usize) -> Ex {
 #[derive(Clone, Debug)]
 struct SpriteDecl { name: usize, id: Option<Ex>, id_val: Option<i64> }
 #[derive(Clone, Debug)]
-enum Use { Sprite(usize, u8), Script(usize, u8) }       // (name, which instruction form)
+enum Use { Sprite(usize, u8), Script(usize, u8), Plain(usize, u8) }       // (name, which instruction form); Plain: a position without an enum
+
+/// one namespace for the model: sprite-only names 0..99 (`spN`), script-only names 100..199 (`scN`), names that may be both 200.. (`bothN`)
+fn nm(g: usize) -> String { if g >= 200 { format!("both{}", g - 200) } else if g >= 100 { format!("sc{}", g - 100) } else { format!("sp{}", g) } }
 struct AnmLayout { entries: Vec<Vec<SpriteDecl>>, scripts: Vec<(usize, usize, Option<i64>, Vec<Use>)> /* (entry, name, explicit number, uses) */, mode: &'static str }
 
 fn gen_id(rng: &mut Rng, running: i64, consts: &[(&'static str, bool, Ex)]) -> (Ex, Option<i64>) {
@@ -203,16 +206,16 @@ fn gen_id(rng: &mut Rng, running: i64, consts: &[(&'static str, bool, Ex)]) -> (
 
 fn gen_anm(rng: &mut Rng) -> AnmLayout {
     let consts = const_items();
-    let mode = match rng.below(20) { 0..=9 => "normal", 10..=12 => "clash", 13..=15 => "dupscript", _ => "chaos" };
+    let mode = match rng.below(24) { 0..=8 => "normal", 9..=11 => "clash", 12..=14 => "dupscript", 15..=19 => "shared", _ => "chaos" };
     let chaos = mode == "chaos";
-    let ne = if mode == "clash" { 2 + rng.below(3) as usize } else { 1 + rng.below(4) as usize };
+    let ne = if mode == "clash" { 2 + rng.below(3) as usize } else if mode == "shared" { 1 + rng.below(3) as usize } else { 1 + rng.below(4) as usize };
     let mut entries = vec![]; let mut running: Option<i64> = Some(0);
     let mut defined: Vec<(usize, Option<i64>)> = vec![];
     // clash mode: one name defined in 2..4 different entries with ids following an agree/differ pattern over two values
-    let clash_name = 7usize;
+    let clash_name = if mode == "shared" { 200usize } else { 7usize };
     let (ca, cb) = (rng.below(12) as i64, 12 + rng.below(12) as i64);
-    let nclash = if mode == "clash" { (2 + rng.below(3) as usize).min(ne) } else { 0 };
-    let pattern: Vec<bool> = (0..nclash).map(|i| i > 0 && rng.chance(2, 5)).collect();
+    let nclash = if mode == "clash" { (2 + rng.below(3) as usize).min(ne) } else if mode == "shared" { if rng.chance(1, 6) { 0 } else { (1 + rng.below(3) as usize).min(ne) } } else { 0 };
+    let pattern: Vec<bool> = (0..nclash).map(|i| i > 0 && (if mode == "shared" { rng.chance(1, 10) } else { rng.chance(2, 5) })).collect();
     for ei in 0..ne {
         let ns = rng.below(5) as usize;
         let mut sprites: Vec<SpriteDecl> = vec![];
@@ -242,12 +245,17 @@ fn gen_anm(rng: &mut Rng) -> AnmLayout {
         }
         entries.push(sprites);
     }
+    let shared = 200usize;
     let nscripts = if mode == "dupscript" { 3 + rng.below(3) as usize } else { 1 + rng.below(4) as usize };
     let mut names: Vec<usize> = vec![];
     for _ in 0..nscripts {
-        let mut name = rng.below(6) as usize;
-        if !chaos || rng.chance(3, 4) { let mut t = 0; while names.contains(&name) && t < 20 { name = rng.below(6) as usize; t += 1; } }
+        let mut name = 100 + rng.below(6) as usize;
+        if !chaos || rng.chance(3, 4) { let mut t = 0; while names.contains(&name) && t < 20 { name = 100 + rng.below(6) as usize; t += 1; } }
         names.push(name);
+    }
+    if mode == "shared" && rng.chance(5, 6) {
+        let j = rng.below(names.len() as u64) as usize; names[j] = shared;
+        if names.len() > 1 && rng.chance(1, 12) { let j2 = (j + 1) % names.len(); names[j2] = shared; }
     }
     if mode == "dupscript" {
         // one name twice, not last: scripts defined after the second duplicate exist and are referenced
@@ -261,13 +269,23 @@ fn gen_anm(rng: &mut Rng) -> AnmLayout {
         let number = if rng.chance(1, 4) { Some(if rng.chance(1, 10) { *rng.pick(&[2147483647i64, 2147483646, -2147483648]) } else { rng.range(-50, 50) }) } else { None };
         let nuses = if mode == "dupscript" { 1 + rng.below(4) as usize } else { rng.below(5) as usize };
         let uses = (0..nuses).map(|_| {
+            if mode == "shared" && rng.chance(1, 2) {
+                let form = rng.below(2) as u8;
+                return match rng.below(3) { 0 => Use::Sprite(shared, form), 1 => Use::Script(shared, rng.below(3) as u8), _ => Use::Plain(shared, form) };
+            }
+            if (mode == "shared" || mode == "normal" || chaos) && rng.chance(1, 6) {
+                // an untyped use of some name, or a name used in the other enum's position
+                let any: Vec<usize> = defined.iter().map(|d| d.0).chain(names.iter().cloned()).collect();
+                let g = *rng.pick(&any);
+                return match rng.below(4) { 0 | 1 => Use::Plain(g, rng.below(2) as u8), 2 => Use::Sprite(g, rng.below(2) as u8), _ => Use::Script(g, rng.below(3) as u8) };
+            }
             if mode != "dupscript" && rng.chance(2, 3) {
                 let form = rng.below(2) as u8;
                 if mode == "clash" && rng.chance(1, 2) { Use::Sprite(clash_name, form) }
                 else if defined.is_empty() || (chaos && rng.chance(1, 6)) { Use::Sprite(rng.below(9) as usize, form) } else { Use::Sprite(rng.pick(&defined).0, form) }
             } else {
                 let form = rng.below(3) as u8;
-                if chaos && rng.chance(1, 6) { Use::Script(rng.below(7) as usize, form) }
+                if chaos && rng.chance(1, 6) { Use::Script(100 + rng.below(7) as usize, form) }
                 else if mode == "dupscript" && rng.chance(1, 2) { Use::Script(*names.last().unwrap(), form) }
                 else { Use::Script(*rng.pick(&names), form) }
             }
@@ -281,32 +299,38 @@ fn gen_anm(rng: &mut Rng) -> AnmLayout {
 fn anm_text(l: &AnmLayout) -> String {
     let consts = const_items();
     let mut t = String::new();
+    let mut plain_consts: Vec<usize> = vec![];
     for (name, is_float, e) in &consts { let _ = writeln!(t, "const {} {} = {};", if *is_float { "float" } else { "int" }, name, ex_text(e, &consts)); }
     for (ei, sprites) in l.entries.iter().enumerate() {
         let _ = writeln!(t, "entry {{ path: \"e{}.png\", has_data: false, rt_width: 64, rt_height: 64, sprites: {{", ei);
         for s in sprites {
             let id = s.id.as_ref().map(|x| format!("id: ({}), ", ex_text(x, &consts))).unwrap_or_default();
-            let _ = writeln!(t, "    sp{}: {{{}x: 0.0, y: 0.0, w: 1.0, h: 1.0}},", s.name, id);
+            let _ = writeln!(t, "    {}: {{{}x: 0.0, y: 0.0, w: 1.0, h: 1.0}},", nm(s.name), id);
         }
         t.push_str("} }\n");
         for (e, name, number, uses) in &l.scripts {
             if *e != ei { continue; }
-            let _ = writeln!(t, "script {}sc{} {{", number.map(|n| format!("{} ", n)).unwrap_or_default(), name);
+            let _ = writeln!(t, "script {}{} {{", number.map(|n| format!("{} ", n)).unwrap_or_default(), nm(*name));
             for u in uses { match u {
-                Use::Sprite(n, 0) => { let _ = writeln!(t, "    ins_3(sp{});", n); },
-                Use::Sprite(n, _) => { let _ = writeln!(t, "    ins_102(sp{}, 5);", n); },
-                Use::Script(n, 0) => { let _ = writeln!(t, "    ins_88(sc{});", n); },
-                Use::Script(n, 1) => { let _ = writeln!(t, "    ins_95(sc{});", n); },
-                Use::Script(n, _) => { let _ = writeln!(t, "    ins_96(sc{}, 1.0, 2.0);", n); },
+                Use::Sprite(n, 0) => { let _ = writeln!(t, "    ins_3({});", nm(*n)); },
+                Use::Sprite(n, _) => { let _ = writeln!(t, "    ins_102({}, 5);", nm(*n)); },
+                Use::Script(n, 0) => { let _ = writeln!(t, "    ins_88({});", nm(*n)); },
+                Use::Script(n, 1) => { let _ = writeln!(t, "    ins_95({});", nm(*n)); },
+                Use::Script(n, _) => { let _ = writeln!(t, "    ins_96({}, 1.0, 2.0);", nm(*n)); },
+                Use::Plain(n, 0) => { let _ = writeln!(t, "    ins_102(0, {});", nm(*n)); },
+                Use::Plain(n, _) => { let _ = writeln!(t, "    ins_102(0, WH_{});", nm(*n)); plain_consts.push(*n); },
             } }
             t.push_str("}\n");
         }
     }
+    // untyped uses through a const item: `const int WH_name = name;`
+    plain_consts.sort(); plain_consts.dedup();
+    for n in plain_consts { let _ = writeln!(t, "const int WH_{} = {};", nm(n), nm(n)); }
     t
 }
 
 /// own walker: (sprite ids in file order, script numbers in file order, (opcode, first argument) of every instruction in file order)
-fn walk_anm(b: &[u8]) -> Result<(Vec<u32>, Vec<i32>, Vec<(u32, u32)>), String> {
+fn walk_anm(b: &[u8]) -> Result<(Vec<u32>, Vec<i32>, Vec<(u32, u32, u32)>), String> {
     let (mut ids, mut nums, mut instrs) = (vec![], vec![], vec![]);
     let mut pos = 0usize;
     loop {
@@ -321,7 +345,7 @@ fn walk_anm(b: &[u8]) -> Result<(Vec<u32>, Vec<i32>, Vec<(u32, u32)>), String> {
                 let op = rd16(b, p)?; let size = rd16(b, p + 2)? as usize;
                 if op == 0xffff { break; }
                 if size < 8 { return Err("bad instruction size".into()); }
-                instrs.push((op, if size >= 12 { rd32(b, p + 8)? } else { 0 }));
+                instrs.push((op, if size >= 12 { rd32(b, p + 8)? } else { 0 }, if size >= 16 { rd32(b, p + 12)? } else { 0 }));
                 p += size;
             }
         }
@@ -338,7 +362,7 @@ fn anm_case(work: &Path, rng: &mut Rng, st: &mut Stats, replay: &str) {
     let uses: Vec<Use> = l.scripts.iter().flat_map(|s| s.3.iter().cloned()).collect();
     let obs: Run<(Vec<u32>, Vec<i32>, Vec<u32>)> = match &r {
         Run::Ok(b) => match walk_anm(b) {
-            Ok((ids, nums, instrs)) => if instrs.len() == uses.len() { Run::Ok((ids, nums, instrs.iter().map(|x| x.1).collect())) } else { Run::Err(format!("harness: {} instructions for {} uses", instrs.len(), uses.len())) },
+            Ok((ids, nums, instrs)) => if instrs.len() == uses.len() { Run::Ok((ids, nums, instrs.iter().zip(&uses).map(|(x, u)| if let Use::Plain(..) = u { x.2 } else { x.1 }).collect())) } else { Run::Err(format!("harness: {} instructions for {} uses", instrs.len(), uses.len())) },
             Err(e) => Run::Err(format!("harness cannot walk output: {}", e)) },
         Run::Err(e) => Run::Err(e.clone()), Run::Panic(p) => Run::Panic(p.clone()),
     };
@@ -350,20 +374,21 @@ fn anm_case(work: &Path, rng: &mut Rng, st: &mut Stats, replay: &str) {
         if ids.len() != flat.len() { bad = Some(format!("{} sprites written for {} declared", ids.len(), flat.len())); }
         // a name that is defined with two different written ids must not compile at all
         for (i, d) in flat.iter().enumerate() { for (j, e) in flat.iter().enumerate() {
-            if bad.is_none() && i < j && d.name == e.name && ids.get(i) != ids.get(j) { bad = Some(format!("sp{} is written with ids {} and {} but the compile succeeded", d.name, ids[i], ids[j])); }
+            if bad.is_none() && i < j && d.name == e.name && ids.get(i) != ids.get(j) { bad = Some(format!("{} is written with ids {} and {} but the compile succeeded", nm(d.name), ids[i], ids[j])); }
         } }
-        for (i, n) in script_names.iter().enumerate() { if bad.is_none() && script_names[..i].contains(n) { bad = Some(format!("sc{} is defined twice but the compile succeeded", n)); } }
+        for (i, n) in script_names.iter().enumerate() { if bad.is_none() && script_names[..i].contains(n) { bad = Some(format!("{} is defined twice but the compile succeeded", nm(*n))); } }
         for (u, &a) in uses.iter().zip(args) {
             if bad.is_some() { break; }
-            bad = match u {
-                Use::Sprite(n, _) => {
-                    let targets: Vec<u32> = flat.iter().zip(ids).filter(|(d, _)| d.name == *n).map(|(_, &i)| i).collect();
-                    if targets.is_empty() { Some(format!("sp{} is not defined but the compile succeeded (argument {})", n, a)) }
-                    else if targets.iter().any(|&t| t != a) { Some(format!("sp{} compiled to {} but its id in the file is {:?}", n, a, targets)) } else { None }
-                },
-                Use::Script(n, _) => match script_names.iter().position(|x| x == n) {
-                    None => Some(format!("sc{} is not defined but the compile succeeded", n)),
-                    Some(i) => if i as u32 != a { Some(format!("sc{} compiled to {} but it is script number {} in the file", n, a, i)) } else { None } },
+            let sprite_ids: Vec<u32> = flat.iter().zip(ids).filter(|(d, _)| d.name == *u_name(u)).map(|(_, &i)| i).collect();
+            let script_pos: Option<usize> = script_names.iter().position(|x| x == u_name(u));
+            let n = nm(*u_name(u));
+            let as_sprite = |a: u32| if sprite_ids.iter().any(|&t| t != a) { Some(format!("{} compiled to {} but its id in the file is {:?}", n, a, sprite_ids)) } else { None };
+            let as_script = |a: u32| if script_pos != Some(a as usize) { Some(format!("{} compiled to {} but it is script number {:?} in the file", n, a, script_pos)) } else { None };
+            bad = match (u, sprite_ids.is_empty(), script_pos.is_none()) {
+                (_, true, true) => Some(format!("{} is not defined but the compile succeeded (argument {})", n, a)),
+                (Use::Plain(..), false, false) => Some(format!("{} is both a sprite and a script, is used where no signature says which is meant, and the compile succeeded (argument {})", n, a)),
+                (Use::Sprite(..), false, _) | (Use::Plain(..), false, true) | (Use::Script(..), false, true) => as_sprite(a),
+                _ => as_script(a),
             };
         }
         if let Some(what) = bad { st.oracle_fail += 1; println!("ORACLE-FAIL\tanm: {}\t{}\t{}", what, replay, oneline(&text)); }
@@ -377,11 +402,13 @@ fn anm_case(work: &Path, rng: &mut Rng, st: &mut Stats, replay: &str) {
     let consts_t = consts.iter().enumerate().map(|(i, c)| format!("({}%nat, {})", i, ex_coq(&c.2))).collect::<Vec<_>>().join(";");
     let entries = l.entries.iter().map(|e| format!("[{}]", e.iter().map(|s| format!("sx {} {}", s.name, match &s.id { Some(x) => format!("(Some {})", ex_coq(x)), None => "None".into() })).collect::<Vec<_>>().join(";"))).collect::<Vec<_>>().join(";");
     let scripts_t = l.scripts.iter().map(|s| format!("sc {} {}", s.1, match s.2 { Some(n) => format!("(Some {})", zs(n)), None => "None".into() })).collect::<Vec<_>>().join(";");
-    let uses_t = uses.iter().map(|u| match u { Use::Sprite(n, _) => format!("USprite {}", n), Use::Script(n, _) => format!("UScript {}", n) }).collect::<Vec<_>>().join(";");
+    let uses_t = uses.iter().map(|u| match u { Use::Sprite(n, _) => format!("XSprite {}", n), Use::Script(n, _) => format!("XScript {}", n), Use::Plain(n, _) => format!("XPlain {}", n) }).collect::<Vec<_>>().join(";");
     println!("ANM\tKAnm [{}] [{}] [{}] [{}] {}\t{} mode={} => {}", consts_t, entries, scripts_t, uses_t,
         ires(&obs, |(ids, nums, args)| format!("({}, {}, {})", zlist(ids.iter().map(|&x| x as i64)), zlist(nums.iter().map(|&x| x as i64)), zlist(args.iter().map(|&x| x as i64)))), replay, l.mode, status(&obs));
     tally(st, &format!("anm-{}", l.mode), &obs);
 }
+
+fn u_name(u: &Use) -> &usize { match u { Use::Sprite(n, _) | Use::Script(n, _) | Use::Plain(n, _) => n } }
 
 fn flat_has_umax(l: &AnmLayout) -> bool {
     l.entries.iter().flatten().any(|s| s.id_val == Some(-1))
